@@ -66,6 +66,16 @@ func wiringByName(name string) *wiring {
 			{Kind: "unique", Store: "bx", Field: "code", Nullable: true},
 			{Kind: "system", Store: "b"},
 		}}
+	case "ufk":
+		// C09 only (not in allWirings): a unique index on a field that also carries a nullable fk constraint -
+		// the schema shape wf_c09 refuses (design/C09.md, "order dependence")
+		return &wiring{Name: "ufk", Stores: []*sStore{
+			{Name: "emp", Fields: []sField{{"name", false}, {"boss", true}}},
+		}, Script: []wiringDecl{
+			{Kind: "unique", Store: "emp", Field: "name"},
+			{Kind: "unique", Store: "emp", Field: "boss", Nullable: true},
+			{Kind: "fkcons", Store: "emp", Field: "boss", Target: "emp", Nullable: true, Casc: "N"},
+		}}
 	}
 	return nil
 }
